@@ -12,6 +12,7 @@ func init() {
 			eng.HostileSweep(run, b)
 		}
 		eng.APISweep(run)
+		eng.KindLiteralSweep(run, drv.BBolt)
 		hostile := run.Get("evaluations")
 		runSS(run, tier, []string{"consistency", "ids", "indexes", "values"}, []string{drv.BBolt, drv.Badger}, "", own("panic", "leak"), nil)
 		run.Set("hostile_calls", hostile)
